@@ -247,7 +247,7 @@ CLAIMED.update({
             "width) the host-side results must equal what the equipment holds, set_ec is applied iff in range, and every collection "
             "event triggered while enabled reaches the host's collection_event_received exactly once with the linked values (none "
             "after clearing, again after re-subscribing). (b) establish_schedules: both real handlers on a scheduled link "
-            "(rigs/net.py): the first 4-5 (thorough 5-6) events are chosen by a SYMBOLIC schedule among delivery of either direction's "
+            "(rigs/net.py): the first 3-5 events are chosen by a SYMBOLIC schedule among delivery of either direction's "
             "FIFO head, early expiry of a WAIT_CRA / delay timer, enable / disable of either side, link selected (inside enable() or "
             "later), link loss; either connect role, first S1F13 refused or accepted on either side, symbolic system-byte counters; "
             "after every such prefix a fair continuation (FIFO delivery, timers in due order on a virtual clock) must bring both "
